@@ -55,6 +55,7 @@ type Engine struct {
 	globalsInit   map[string][]*Term
 	recDepth      int
 	debugQ        bool
+	lastCuts      []int
 	ghostDecls    map[string]*Sort
 	typeOfTag     map[int]types.Type
 	debugN        int
@@ -495,7 +496,14 @@ func (E *Engine) recAxiomsFor(ts []*Term, goal *Term) []*Term {
 			tpl := E.recTemplates[t.Name]
 			m := map[string]*Term{}
 			for i, p := range tpl.params {
-				m[p.Name] = t.Args[i]
+				a := t.Args[i]
+				if a.S.K == SInt && termSize(a) > 8 {
+					// name large arguments: the unfolded body mentions them many times
+					nv := E.fresh("u", a.S)
+					out = append(out, Eq(nv, a))
+					a = nv
+				}
+				m[p.Name] = a
 			}
 			ax := Eq(t, Subst(tpl.body, m))
 			out = append(out, ax)
